@@ -13,6 +13,17 @@ class Ansatz(AbstractOperator):
     """
 
 
+def _encoded_matrix(pauli_op, nqubits: int):
+    """
+    Dense matrix of an encoded cluster operator.
+    If all coefficients are zero, the encoded operator does not contain any
+    Pauli string (and its 'as_matrix' is the integer 0): it is the zero matrix.
+    """
+    if not pauli_op.pstrings:
+        return np.zeros((2**nqubits, 2**nqubits))
+    return pauli_op.as_matrix().toarray()
+
+
 class qUCC(Ansatz):
     """
     Quantum Unitary Coupled Cluster ansatz (generalized).
@@ -88,7 +99,7 @@ class qUCC(Ansatz):
             params = np.reshape(params, (self.nqubits, self.nqubits))
             T = FieldOperatorTerm([IFODesc(self.field, IFOType.FERMI_CREATE),IFODesc(self.field, IFOType.FERMI_ANNIHIL)],params)
             T_pauli = jordan_wigner_encode_field_operator(FieldOperator([T]))
-            T_mat = T_pauli.as_matrix().toarray()
+            T_mat = _encoded_matrix(T_pauli, self.nqubits)
             return sparse.csr_matrix(expm(T_mat - T_mat.conjugate().T))
 
         elif self.excitations == "d":
@@ -98,7 +109,7 @@ class qUCC(Ansatz):
             T = FieldOperatorTerm([IFODesc(self.field, IFOType.FERMI_CREATE),IFODesc(self.field, IFOType.FERMI_CREATE),
                                    IFODesc(self.field, IFOType.FERMI_ANNIHIL),IFODesc(self.field, IFOType.FERMI_ANNIHIL)],params)
             T_pauli = jordan_wigner_encode_field_operator(FieldOperator([T]))
-            T_mat = T_pauli.as_matrix().toarray()
+            T_mat = _encoded_matrix(T_pauli, self.nqubits)
             return sparse.csr_matrix(expm(T_mat - T_mat.conjugate().T))
 
         elif self.excitations == "sd":
@@ -113,6 +124,6 @@ class qUCC(Ansatz):
             U = []
             for i in range(2):
                 T_pauli = jordan_wigner_encode_field_operator(FieldOperator([T[i]]))
-                T_mat = T_pauli.as_matrix().toarray()
+                T_mat = _encoded_matrix(T_pauli, self.nqubits)
                 U.append(expm(T_mat - T_mat.conjugate().T))
             return sparse.csr_matrix(U[0]@U[1])
